@@ -54,6 +54,12 @@ function injections(p) {
       out.push({ name: `cut-end-tag-after-name@${end.off}`, text: text.slice(0, end.off), expect: ['incomplete tag', 'missing end tag'] })
       out.push({ name: `cut-end-tag-after-slash@${t.offEnd}`, text: text.slice(0, t.offEnd), expect: ['incomplete tag', 'missing end tag', 'invalid end tag', 'unexpected character'] })
     }
+    if (t.kind === 'comment') {
+      // an unterminated comment: the text ends inside it / its end is missing and no later `-->` closes it
+      out.push({ name: `cut-comment-after-open@${t.off}`, text: text.slice(0, t.off + 4), expect: ['incomplete tag'] })
+      out.push({ name: `cut-comment-inside@${t.off}`, text: text.slice(0, Math.max(t.off + 4, t.offEnd - 3)), expect: ['incomplete tag'] })
+      if (text.indexOf('-->', t.offEnd) === -1) out.push({ name: `drop-comment-end@${t.off}`, text: cut(t.offEnd - 3, t.offEnd), expect: ['incomplete tag'] })
+    }
     if (t.kind === 'tag-name' && t.text !== 'wxs') {
       out.push({ name: `cut-start-tag-after-name@${t.offEnd}`, text: text.slice(0, t.offEnd), expect: ['incomplete tag'] })
       out.push({ name: `unknown-wx-directive@${t.offEnd}`, text: ins(t.offEnd, ' wx:bogus="1"'), expect: ['invalid attribute prefix'] })
